@@ -106,6 +106,11 @@ func (t *ProcessorTask) Do(ctx context.Context, b *Batch) error {
 	if len(recsOut) == 0 {
 		return cerrors.Errorf("processor didn't return any records")
 	}
+	if len(recsOut) > len(recsIn) {
+		// The extra results belong to no record of the batch; marking them
+		// would index past the end of the batch.
+		return cerrors.Errorf("processor returned %d records for %d input records", len(recsOut), len(recsIn))
+	}
 	t.metrics.Observe(len(recsOut), start)
 
 	if len(recsIn) > len(recsOut) {
